@@ -796,8 +796,11 @@ class ClientSession:
                         ):
                             method = hdrs.METH_GET
                             data = None
-                            # The body is gone, and its framing with it
+                            # The body is gone, and with it its framing and
+                            # what was asked for in order to send it
                             chunked = None
+                            compress = False
+                            expect100 = False
                             if headers.get(hdrs.CONTENT_LENGTH):
                                 headers.pop(hdrs.CONTENT_LENGTH)
                         else:
@@ -816,7 +819,11 @@ class ClientSession:
                                     "body. Use bytes, a seekable file-like object, "
                                     "or set allow_redirects=False."
                                 )
-                            data = req._body
+                            # (a request that had no body still has none)
+                            if req._body is req._EMPTY_BODY:
+                                data = None
+                            else:
+                                data = req._body
 
                         # reading from correct redirection
                         # response is forbidden
